@@ -1,6 +1,6 @@
 ----------------------------- MODULE MC_ItsFsm ------------------------------
-EXTENDS ItsFsm, TLC, Json
-VARIABLES s, last     \* last = the transition just taken (for dumping)
+EXTENDS ItsFsm, TLC, Json, Integers
+VARIABLES s, impl, last     \* s = diagram state, impl = implementation variant id, last = the transition just taken (for dumping)
 
 Z == [i \in 1..8 |-> 0]
 Mk(b0, b1, b8, id) == <<b0, b1>> \o [i \in 1..6 |-> 0] \o <<b8, id>>
@@ -20,12 +20,15 @@ Alphabet == [ IHW   |-> Mk(7, 0, 0, ID_IHW),
               UNK1  |-> Mk(0, 32, 1, 255) ]          \* unknown id, bit 13 and bit 64 set
 Classes == DOMAIN Alphabet
 
-Init == s = InitState /\ last = [from |-> "-", cls |-> "-", w |-> <<>>, legal |-> TRUE, class |-> "-", to |-> InitState, fam |-> "-"]
+Init == s = InitState /\ impl = ImplInit /\ last = [from |-> "-", fromId |-> -1, cls |-> "-", w |-> <<>>, legal |-> TRUE, class |-> "-", to |-> InitState, toId |-> ImplInit, fam |-> "-"]
 Next == \E c \in Classes :
           LET w == Alphabet[c] IN
           /\ s' = Step(s, w)
-          /\ last' = [from |-> s, cls |-> c, w |-> w, legal |-> Legal(s, w), class |-> Class(s, w), to |-> Step(s, w),
+          /\ impl' = ImplStep(impl, w)
+          /\ last' = [from |-> s, fromId |-> impl, toId |-> ImplStep(impl, w), cls |-> c, w |-> w, legal |-> Legal(s, w), class |-> Class(s, w), to |-> Step(s, w),
                       fam |-> IF Legal(s, w) THEN "-" ELSE IllegalFamily(s)]
-TypeOK == s \in States
+TypeOK == s \in States /\ impl \in ImplStates
+\* the coded machine refines the diagram: the variant reached always stands for the diagram state reached
+Refines == Abs(impl) = s
 Dump == PrintT("EDGE " \o ToJson(last))
 =============================================================================
